@@ -73,8 +73,13 @@ func (f *Func) Init(raw string) error {
 	if f.Complete, err = url.PathUnescape(raw); err != nil {
 		return fmt.Errorf("bad function reference: %w", err)
 	}
-	// Update the index in the unescaped string.
-	endPkg += len(f.Complete) - len(raw)
+	// Update the index in the unescaped string. Only the escapes before the
+	// package dot shift it.
+	if endPkg > 0 {
+		if p, err := url.PathUnescape(raw[:endPkg]); err == nil {
+			endPkg = len(p)
+		}
+	}
 	if endPkg != -1 {
 		f.ImportPath = f.Complete[:endPkg]
 	}
